@@ -68,7 +68,7 @@ Fixpoint replay (cfg : config) (s : state) (evs : list ev) : bool :=
   | EDelete p :: r => replay cfg (step cfg s (Delete p)) r
   | ELookup ip ans :: r =>
       match candidates (store s) ip, memo s !! ip with
-      | _ :: _ :: _ as cs, (None | Some None) =>
+      | (_ :: _ :: _) as cs, (None | Some None) =>
           (* ambiguous index read: any of the candidates *)
           match List.find (fun c => ans_matches ans (Some (derive cfg c))) cs with
           | Some c => replay cfg (MkSt (store s) (<[ip := Some (derive cfg c)]> (memo s))) r
